@@ -41,8 +41,12 @@ func NewEval(opts CompilerOptions, globals Object, args ...Object) *Eval {
 
 // Run compiles, runs given script and returns last value on stack.
 func (r *Eval) Run(ctx context.Context, script []byte) (Object, *Bytecode, error) {
+	// constants of a script that fails to compile are dropped, the modules it
+	// added to the store must be dropped with them.
+	savedStore := r.moduleStore.clone()
 	bytecode, err := compileScript(script, &r.Opts, &r.moduleStore)
 	if err != nil {
+		r.moduleStore = savedStore
 		return nil, nil, err
 	}
 
